@@ -1064,6 +1064,9 @@ func (x *Exec) callModular(s *State, fi *FuncInfo, ct *Contract, recv *Term, arg
 		x.obligeNamed(s, fmt.Sprintf("%s/call:%s#%d.requires#%d", x.top.Key, fi.Key, site, rq.Ord), "requires", g, x.pos(call.Pos()), rq.Text)
 		s.assume(g)
 	}
+	if ct.Logged {
+		s.log = append(s.log, "@"+fi.Key)
+	}
 	pre := s.clone()
 	// frame
 	x.applyAssigns(s, fi, ct, env, sig, recv)
